@@ -5,6 +5,7 @@ CONSTANTS
   PlaceholderTypedAsCookie = TRUE
   UidChecked = TRUE
   AdWhole = TRUE
+  Hardened = TRUE
   StopAtAuth = TRUE
   CtLenExact = TRUE
   LenChoices <- LenChoicesExh
